@@ -191,6 +191,23 @@ theorem variadic_any_after_fixed_any (v : Val) (vs : List Val) : convertVariadic
   simp [convertVariadic, h]
 
 /-! non-vacuity: concrete conversions, decided by evaluation -/
+/-- the digits are DECIMAL digits, leading zeros included: `"010"` is ten (not eight), `"08"` is eight (not an error) - and a spelling that
+    is not a string of decimal digits with an optional sign (a base prefix, an underscore) is not a number at all -/
+theorem zero_padded_digits_are_decimal :
+    convertArg (.str "010".toList) (.int .int) = some (.ok (.int .int 10)) ∧ convertArg (.str "08".toList) (.int .int) = some (.ok (.int .int 8)) ∧
+    convertArg (.str "007".toList) (.int .int) = some (.ok (.int .int 7)) := by
+  have h1 := digits_for_int_parameter "010".toList (by decide) (by decide) (by decide)
+  have e1 : digitsToNat "010".toList = 10 := by decide
+  have h2 := digits_for_int_parameter "08".toList (by decide) (by decide) (by decide)
+  have e2 : digitsToNat "08".toList = 8 := by decide
+  have h3 := digits_for_int_parameter "007".toList (by decide) (by decide) (by decide)
+  have e3 : digitsToNat "007".toList = 7 := by decide
+  rw [e1] at h1; rw [e2] at h2; rw [e3] at h3
+  exact ⟨h1, h2, h3⟩
+
+example : convertArg (.str "0x10".toList) (.int .int) = some cannot ∧ convertArg (.str "1_000".toList) (.int .int) = some cannot
+    ∧ convertArg (.str "0b11".toList) (.int .int) = some cannot := by refine ⟨rfl, rfl, rfl⟩
+
 example : convertArg (.str "42".toList) (.int .int) = some (.ok (.int .int 42)) := by
   have h := digits_for_int_parameter "42".toList (by decide) (by decide) (by decide)
   have e : digitsToNat "42".toList = 42 := by decide
